@@ -76,7 +76,9 @@ class Gef:
                 ep = self.epoch(v, path[-1])
                 if ep:
                     sfx = '@%d' % ep
-            if acc is not None and path and rs.startswith('node(phi{') and rs.endswith('})') and rs.count('phi{') == 1:
+            ix_ = strip(acc[2]) if acc is not None else None
+            if acc is not None and path and rs.startswith('node(phi{') and rs.endswith('})') and rs.count('phi{') == 1 and 'rec' not in rs \
+                    and ix_ is not None and ix_.kind == 'phi' and ix_.extra.get('block') not in self.b.cfg.loops() and not ix_.extra.get('anyof'):
                 # a link of "one node or another" is "one node's link or the other's" (a re-read hoisted below the branches that chose the node)
                 mem = split_top(rs[len('node(phi{'):-2])
                 r = 'phi{%s}' % '|'.join(sorted('node(%s)%s%s' % (m_, ''.join('.' + p for p in path), sfx) for m_ in mem))
